@@ -91,7 +91,7 @@ func (g *GMap) fresh(x *X, s *State, prefix string) *GMap {
 
 // ghostVarNames in a fixed order (used by frame checks and havoc).
 var ghostVarNames = []string{"Auction", "Bid", "AllowedBidder", "VestingQueue", "BidSeq", "MatchedBidsLen", "AuctionSeq", "Params",
-	"Bal", "Pool", "BlockTime", "Clock", "ExternOK", "HookOK", "HookN", "HookT", "SetT", "XferN", "XferT", "EventN", "EnableAddAllowedBidder", "HookArgs", "LastMatchTotal", "LastMatchPrice"}
+	"Bal", "Pool", "BlockTime", "Clock", "ExternOK", "HookOK", "HookN", "HookT", "SetT", "XferN", "XferT", "EventN", "EnableAddAllowedBidder", "HookArgs", "LastMatchTotal", "LastMatchPrice", "LastAllocHas", "LastAlloc", "LastRefundHas", "LastRefund"}
 
 func (V *Verifier) lookupType(name string) types.Type {
 	obj := V.typesPkg().Scope().Lookup(name)
@@ -159,6 +159,11 @@ func (V *Verifier) initGhost(x *X, s *State) {
 	// outcome of the last batch matching (written only by "sets" clauses): total sold and clearing price
 	s.ghost["LastMatchTotal"] = Sc{T: x.sym("LastMatchTotal", "Int"), Sort: "Int"}
 	s.ghost["LastMatchPrice"] = Sc{T: x.sym("LastMatchPrice", "Int"), Sort: "Int"}
+	// ... and who is to receive what: the allocation and refund maps of the last batch matching (domain and values)
+	s.ghost["LastAllocHas"] = Sc{T: x.sym("LastAllocHas", "(Array Str Bool)"), Sort: "(Array Str Bool)"}
+	s.ghost["LastAlloc"] = Sc{T: x.sym("LastAlloc", "(Array Str Int)"), Sort: "(Array Str Int)"}
+	s.ghost["LastRefundHas"] = Sc{T: x.sym("LastRefundHas", "(Array Str Bool)"), Sort: "(Array Str Bool)"}
+	s.ghost["LastRefund"] = Sc{T: x.sym("LastRefund", "(Array Str Int)"), Sort: "(Array Str Int)"}
 	// last arguments received by the listeners of each hook method (fresh = "whatever was passed before")
 	ha := St{map[string]Val{}}
 	if it, ok := V.lookupType("FundraisingHooks").Underlying().(*types.Interface); ok {
